@@ -63,10 +63,17 @@ Req_LoginAllowed(e, gs, rules, file, allowed) == Req_EmailAllowed(e, rules, file
 \* auth-only query constraints: q is a sequence of [p, items]; empty items are ignored; a parameter
 \* without any non-empty item is no constraint
 Items(q, p) == UNION { {q[i].items[k] : k \in {j \in 1..Len(q[i].items) : q[i].items[j] # <<>>}} : i \in {j \in 1..Len(q) : q[j].p = p} }
+\* host-style matching of the query constraint (util.IsEndpointAllowed, as documented for domain lists): ".d" and "*.d" admit d itself
+\* and every sub-domain of d - never a name that merely ends in the same letters
+QDomMatches(it, dom) ==
+    CASE Len(it) >= 2 /\ it[1] = "dot"                     -> dom = Tail(it) \/ (EndsWith(dom, it) /\ Len(dom) > Len(it))
+      [] Len(it) >= 3 /\ it[1] = "star" /\ it[2] = "dot"   -> dom = Tail(Tail(it)) \/ (EndsWith(dom, Tail(it)) /\ Len(dom) > Len(it) - 1)
+      [] OTHER                                            -> dom = it
 Req_Query(e, gs, q) ==
     /\ (Items(q, "allowed_groups") = {} \/ \E i \in 1..Len(gs) : <<gs[i]>> \in Items(q, "allowed_groups"))
     /\ (Items(q, "allowed_emails") = {} \/ e \in Items(q, "allowed_emails"))
-    /\ (Items(q, "allowed_email_domains") = {} \/ (Len(SelectSeq(e, LAMBDA a : a = "at")) = 1 /\ DomainOf(e) \in Items(q, "allowed_email_domains")))
+    \* (an item may be a domain, or ".domain" / "*.domain" for its proper sub-domains - with the label boundary; compared as written)
+    /\ (Items(q, "allowed_email_domains") = {} \/ (Len(SelectSeq(e, LAMBDA a : a = "at")) = 1 /\ \E it \in Items(q, "allowed_email_domains") : QDomMatches(it, DomainOf(e))))
 
 P(p, items) == [p |-> p, items |-> items]
 A_EX == <<"alice", "at">> \o EX
@@ -87,6 +94,9 @@ Queries == { <<>>,
              <<P("allowed_emails", <<<<>>, <<>>, A_EX>>)>>,
              <<P("allowed_emails", <<<<>>>>)>>,
              <<P("allowed_email_domains", <<EX, <<>>>>)>>,
+             <<P("allowed_email_domains", <<<<"dot">> \o EX>>)>>,
+             <<P("allowed_email_domains", <<<<"star", "dot">> \o EX>>)>>,
+             <<P("allowed_email_domains", <<<<"other", "dot", "org">>, <<"dot">> \o EX>>)>>,
              <<P("allowed_groups", <<<<"g4">>, <<>>>>)>>,
              <<P("allowed_groups", <<<<"g1">>>>), P("allowed_emails", <<B_OO>>)>>,
              <<P("allowed_groups", <<<<"g1">>>>), P("allowed_emails", <<A_EX>>), P("allowed_email_domains", <<EX>>)>>,
